@@ -86,6 +86,10 @@ Calls == {
     [call |-> "Cylinder.chain.length", cond |-> Simple("Positive")],
     [call |-> "Frustum.chain.length", cond |-> Simple("Positive")],
     [call |-> "ExtrudedRing.chain.length", cond |-> Simple("Positive")],
+    \* ... chaining backwards from the start face is asked for with the flag, never with a negative length
+    [call |-> "Cylinder.chain.length.start_face", cond |-> Simple("Positive")],
+    [call |-> "Frustum.chain.length.start_face", cond |-> Simple("Positive")],
+    [call |-> "ExtrudedRing.chain.length.start_face", cond |-> Simple("Positive")],
     [call |-> "LoftedShape.face_counts", cond |-> Count(4)],
     [call |-> "LoftedShape.mid_face_counts", cond |-> Count(4)],
     \* several mid sketches: each of them has to match, wherever it stands in the list
